@@ -37,6 +37,9 @@ deriving Repr
 
 structure LevelCfg where
   engine : Engine
+  /-- name of the deme class configured for this level (built-in or registered by the user);
+  only reported, the behaviour is that of `engine` -/
+  cls : String
   generations : Nat
   popSize : Nat
   lsc : Lsc
